@@ -21,8 +21,8 @@ RULE = ('trees: bodies/specs of E1-generated routines decorated with pragmas/com
         'key, empty tuple, tuple keys, nested keys) x transformer class x inplace/rebuild_scopes/invalidate_source, '
         'or start/stop sets for the masked variants. Non-trivial = the reference result differs from the input tree; '
         'distinct = hash of (tree encoding, mapping description, options).')
-CASES = {'quick': 480, 'thorough': 9000}
-MIN_NONTRIVIAL = {'quick': 200, 'thorough': 4000}
+CASES = {'quick': 400, 'thorough': 6000}
+MIN_NONTRIVIAL = {'quick': 180, 'thorough': 2500}
 ANCHORS = ['loki/ir/transformer.py', 'loki/ir/nodes/abstract_nodes.py']
 REQUIRED_REACH = ['visit_ScopedNode', '_inject_tuple_mapping', 'visit_InternalNode', '_rebuild', '_update']
 REQUIRED_COUNTERS = {'pairs_checked': 500, 'original_snapshots_compared': 200, 'rebuilt_entries_checked': 1000}
